@@ -18,6 +18,14 @@ def handle (op : String) (args : List String) : Option String :=
     let t ← parseFl t
     let n := indices c lam t
     pure s!"{fl n.x} {fl n.y} {fl n.z}"
+  | "indices_expr", [v, lam, t] => do
+    -- expression crystal built by the harness from its own transcription of the formulas:
+    -- expected to equal the built-in model up to meval's evaluation order
+    let c ← Crystal.ofVariant v
+    let lam ← parseFl lam
+    let t ← parseFl t
+    let n := indices c lam t
+    pure s!"{fl n.x} {fl n.y} {fl n.z}"
   | "meta", [v] => do
     let c ← Crystal.ofVariant v
     pure (metaLine (getMeta c))
